@@ -12,6 +12,7 @@ import (
 	"os/exec"
 	"strconv"
 	"strings"
+	"sync/atomic"
 	"time"
 )
 
@@ -123,8 +124,21 @@ func (s *solver) assert(t *term) {
 }
 
 // check returns true for sat, false for unsat.
+// killEvery (development, SYMGO_KILLSOLVER=n): every n-th query of the process first kills
+// its solver, to exercise the recovery path.
+var killEvery, killCount int64
+
+func init() {
+	if v, err := strconv.ParseInt(os.Getenv("SYMGO_KILLSOLVER"), 10, 64); err == nil {
+		killEvery = v
+	}
+}
+
 func (s *solver) check() bool {
 	s.Queries++
+	if killEvery > 0 && atomic.AddInt64(&killCount, 1)%killEvery == 0 {
+		s.cmd.Process.Kill()
+	}
 	t0 := time.Now()
 	s.send("(check-sat)\n")
 	l := s.readLine()
